@@ -117,6 +117,12 @@ pub struct Sc {
     pub strays: Vec<String>,
     #[serde(default)]
     pub links: Vec<LinkObj>,
+    /// interleavings of independent objects: two handles on the same database
+    /// advanced in turn; another database (same directory names, other content)
+    /// opened while the first one's packages are still held; the packages'
+    /// Metadata values filled side by side
+    #[serde(default)]
+    pub twin: bool,
     pub installer: Vec<InstallerStep>,
     /// file names to push through MetadataEntry::from_filename
     pub probes: Vec<String>,
@@ -331,6 +337,7 @@ impl Property for C20 {
             pkgs,
             strays,
             links,
+            twin: rng.chance(1, 3),
             installer,
             probes,
         }
@@ -725,6 +732,25 @@ impl Property for C20 {
                 Err(_) => second_errors += 1,
             }
         }
+        // the tree is quiescent now: this second handle (opened while the first one
+        // is still alive, though exhausted) must list exactly the directories that
+        // are complete at this point
+        for (i, p) in sc.pkgs.iter().enumerate() {
+            if !is_utf8(&p.name) || !has_dash(&p.name) {
+                continue;
+            }
+            let name = String::from_utf8(p.name.clone()).unwrap();
+            let count = second.iter().filter(|q| *q.pkgname() == name).count();
+            let complete_now = exists[i][F_COMMENT] && exists[i][F_CONTENTS] && exists[i][F_DESC];
+            ensure!(
+                count == complete_now as usize,
+                if complete_now { "installed-package-not-listed" } else { "incomplete-directory-listed" },
+                "second handle on the quiescent database: {:?} (complete: {}) was listed {} times",
+                name,
+                complete_now,
+                count
+            );
+        }
         // the same listing through the iterator adaptors a caller may use
         // (nth, skip, step_by): on the now quiescent tree they must agree with
         // plain next() - the order of two listings of an unchanged directory is
@@ -775,13 +801,85 @@ impl Property for C20 {
             }
         }
         second.sort_by(|a, b| a.pkgname().cmp(b.pkgname()));
-        for pkg in second {
-            let pi = match sc.pkgs.iter().position(|p| p.name == pkg.pkgname().as_bytes()) {
-                Some(i) => i,
-                None => continue,
-            };
-            let mut md = if pi % 2 == 0 { Metadata::new() } else { Metadata::default() };
-            for f in 0..NFILES {
+        if sc.twin {
+            ctx.fault("interleaved_objects");
+            // two handles on the same path, advanced in turn: each must list what a
+            // single handle lists
+            let mut a = PkgDB::open(&dbpath).map_err(|e| Violation::new("open-failed", format!("{}", e)))?;
+            let mut b = PkgDB::open(&dbpath).map_err(|e| Violation::new("open-failed", format!("{}", e)))?;
+            let (mut la, mut lb): (Vec<String>, Vec<String>) = (Vec::new(), Vec::new());
+            let (mut da, mut db_done) = (false, false);
+            let mut turns = 0;
+            while !(da && db_done) {
+                turns += 1;
+                if turns > 2 * budget + 4 {
+                    fail!("liveness-iterator", "two interleaved handles do not finish");
+                }
+                if !da {
+                    match a.next() {
+                        None => da = true,
+                        Some(Ok(p)) => la.push(p.pkgname().clone()),
+                        Some(Err(_)) => {}
+                    }
+                }
+                if !db_done {
+                    match b.next() {
+                        None => db_done = true,
+                        Some(Ok(p)) => lb.push(p.pkgname().clone()),
+                        Some(Err(_)) => {}
+                    }
+                }
+            }
+            la.sort();
+            lb.sort();
+            let want: Vec<String> = second.iter().map(|p| p.pkgname().clone()).collect();
+            ensure!(
+                la == want && lb == want,
+                "twin-handles-interfere",
+                "two handles on the same database advanced in turn listed {:?} and {:?}; a single handle lists {:?}",
+                la,
+                lb,
+                want
+            );
+            ctx.probe("twin-handles-compared");
+            // another database with the same directory names and other content is
+            // opened and listed while the first one's packages are still held
+            sd.mkdir("db-other");
+            for pkg in &second {
+                if !pkg.pkgname().is_empty() && !pkg.pkgname().contains('/') {
+                    sd.mkdir(&format!("db-other/{}", pkg.pkgname()));
+                    for f in [F_COMMENT, F_CONTENTS, F_DESC] {
+                        sd.write(&format!("db-other/{}/{}", pkg.pkgname(), FILE_NAMES[f]), format!("OTHER {}\n", FILE_NAMES[f]).as_bytes());
+                    }
+                }
+            }
+            let others: Vec<pkgsrc::pkgdb::Package> = PkgDB::open(&sd.path("db-other"))
+                .map_err(|e| Violation::new("open-failed", format!("{}", e)))?
+                .take(budget)
+                .filter_map(|r| r.ok())
+                .collect();
+            for o in &others {
+                let got = o.read_metadata(MetadataEntry::Comment);
+                ensure!(
+                    got.as_deref().ok() == Some("OTHER +COMMENT\n"),
+                    "metadata-content",
+                    "{} of the second database: read_metadata(+COMMENT) returned {:?}",
+                    o.pkgname(),
+                    got
+                );
+            }
+        }
+        // every listed package's metadata, read file by file ACROSS the packages,
+        // so that their Metadata values are filled side by side
+        let listed: Vec<(usize, pkgsrc::pkgdb::Package)> = second
+            .into_iter()
+            .filter_map(|pkg| sc.pkgs.iter().position(|p| p.name == pkg.pkgname().as_bytes()).map(|pi| (pi, pkg)))
+            .collect();
+        let mut mds: Vec<Metadata> = listed.iter().map(|(pi, _)| if pi % 2 == 0 { Metadata::new() } else { Metadata::default() }).collect();
+        for f in 0..NFILES {
+            for (k, (pi, pkg)) in listed.iter().enumerate() {
+                let pi = *pi;
+                let md = &mut mds[k];
                 let got = metered!(ctx, if exists[pi][f] { sc.pkgs[pi].contents[f].len() } else { 0 } + 256, pkg.read_metadata(entry(f)));
                 ctx.step("read_metadata", pi as u64, f as u64);
                 match (&got, exists[pi][f]) {
@@ -816,8 +914,20 @@ impl Property for C20 {
                     }
                 }
             }
+        }
+        // validity, decided after all of them were filled: valid ones first
+        let mut order: Vec<usize> = (0..listed.len()).collect();
+        let wanted = |pi: usize| {
             let ne = |f: usize| exists[pi][f] && !sc.pkgs[pi].contents[f].trim().is_empty();
-            let want_valid = ne(F_COMMENT) && ne(F_CONTENTS) && ne(F_DESC);
+            ne(F_COMMENT) && ne(F_CONTENTS) && ne(F_DESC)
+        };
+        order.sort_by_key(|&k| !wanted(listed[k].0));
+        for k in order {
+            let (pi, pkg) = &listed[k];
+            let pi = *pi;
+            let md = &mds[k];
+            let ne = |f: usize| exists[pi][f] && !sc.pkgs[pi].contents[f].trim().is_empty();
+            let want_valid = wanted(pi);
             ctx.probe(if want_valid { "metadata-valid" } else { "metadata-invalid" });
             ensure!(
                 md.is_valid().is_ok() == want_valid,
